@@ -257,8 +257,16 @@ class CallMixin:
                 out[n] = Sym(v.pulse, ("ref", "Pulse"))
             elif ty == "real" and isinstance(v, Sym) and v.ty == "int":
                 out[n] = Sym(z3.ToReal(v.t), "real")
-            elif ty == "real" and isinstance(v, OptV):
-                pass
+            elif isinstance(ty, tuple) and ty[0] == "opt" and not isinstance(v, OptV) and n in out:
+                if v is None:
+                    out[n] = OptV(z3.BoolVal(True), self.fresh_value(ty[1], n))
+                else:
+                    inner = v
+                    if isinstance(v, str):
+                        inner = Sym(str_const(v), "str")
+                    out[n] = OptV(z3.BoolVal(False), inner)
+            elif isinstance(ty, tuple) and ty[0] == "list" and isinstance(v, (PyList, tuple)):
+                out[n] = self.as_seq(v, st, ty[1])
         return out
 
     def apply_contract(self, con, bound, st, node):
